@@ -29,7 +29,8 @@ RULE_STATE = (
     "sequence of 1-5 queries on it; each query = the features its traversal / access model contribute (stub "
     "services building the model of the query at hand), its state_features (parsed by the real code from serde JSON), "
     "0-8+ operations; every query's observables are compared with M / S computed for that query ALONE. "
-    "240 deterministic boundary cases first (EVERY ordered pair of units of the three families (25 + 16 + 9) through "
+    "243 deterministic boundary cases first (writes of +inf, -inf and NaN through set_* / add_* of every family and "
+    "set_custom_f64: the slot must hold that infinity / NaN afterwards, each followed by a finite write; EVERY ordered pair of units of the three families (25 + 16 + 9) through "
     "set / get in both units / add / round trip / 12-fold add, judged by the table factor at 2^-40 AND, for distance "
     "and time, by the exact SI factor within 0.2 %; whole-number initial values spelled as JSON integer literals "
     "(-5, 0, -0, 2^53, u64::MAX, i64::MIN), float literals and exponent forms - configuration and query JSON go "
@@ -138,6 +139,14 @@ def run(chk):
                       "model/traversal/state/state_variable.rs have the shape the translator knows (fail closed)",
                       detail="coq/Gen/StateFeature.v could not be regenerated; the previous definitions (if any) are used below",
                       found=False, key="translator-statefeature")
+        # keep going with the last definitions that WERE read from a source the translator understands (the main tree's):
+        # the model still builds and the streams below search for the concrete failing input
+        dst = os.path.join(vf.COQ, "Gen", "StateFeature.v")
+        src = os.path.join(vf.ROOT, "coq", "Gen", "StateFeature.v")
+        if not os.path.exists(dst) and os.path.exists(src):
+            os.makedirs(os.path.dirname(dst), exist_ok=True)
+            shutil.copy(src, dst)
+            chk.coverage["translator"]["statefeature"]["fallback"] = "last good StateFeature.v of the main tree"
     chk.proofs(extra_targets=["Model/CompactMapRun.vo", "Model/StateModelRun.vo"], extra_props=["Props/GenStateFeature.v"])
     binp = vf.build_harness("c11")
     only = replay_stream(chk)
